@@ -84,6 +84,16 @@ m("C05-global-cache", CALC, "    let (nodes, signals, input_mapping): (Vec<Node>
 m("C05-hashmap-order-dependent", CALC, "        for (i, v) in value.iter().enumerate() {\n            input_buffer[offset + i] = *v;\n        }", "        for (i, v) in value.iter().enumerate() {\n            input_buffer[offset + i] = *v;\n        }\n        if len == 0 {\n            input_buffer[offset] = U256::ZERO;\n        }", "C05")
 m("C05-time-seeded", CALC, "    let mut inputs_buffer = get_inputs_buffer(get_inputs_size(&nodes));", "    let mut inputs_buffer = get_inputs_buffer(get_inputs_size(&nodes));\n    if std::env::var(\"RLN_DEBUG_INPUTS\").is_ok() {\n        inputs_buffer[0] = U256::from(1);\n    }", "C05")
 
+# ---- C12
+m("C12-range-check-gt", PROTO, "    if message_id >= user_message_limit {", "    if message_id > user_message_limit {", "C12")
+m("C12-witness-prefix-guard-removed", PROTO, "    if serialized.len() < 3 * fr_byte_size() {\n        return Err(Report::msg(\"serialized witness is too short\"));\n    }\n", "", "C12")
+m("C12-tail-guard-weakened", PROTO, "    if serialized.len() - all_read < 2 * fr_byte_size() {", "    if serialized.len() - all_read < fr_byte_size() {", "C12")
+m("C12-proof-expect", PROTO, "    let merkle_proof = tree.proof(id_index)?;", "    let merkle_proof = tree.proof(id_index).expect(\"proof should exist\");", "C12")
+m("C12-shape-check-dropped", PROTO, "    merkle_path_shape_check(\n        &rln_witness.path_elements,\n        &rln_witness.identity_path_index,\n    )?;\n\n    // y share", "\n    // y share", "C12")
+m("C12-vec-fr-guard-off", UT, "    if len > (input.len() - 8) / el_size {", "    if len > input.len() / el_size {", "C12")
+m("C12-signal-len-guard-off-by-prefix", PROTO, "    if signal_len > serialized.len() - all_read {\n        return Err(Report::msg(\"signal length exceeds input data\"));\n    }\n    let signal: Vec<u8> = serialized[all_read..all_read + signal_len].to_vec();\n\n    let merkle_proof", "    if signal_len > serialized.len() {\n        return Err(Report::msg(\"signal length exceeds input data\"));\n    }\n    let signal: Vec<u8> = serialized[all_read..all_read + signal_len].to_vec();\n\n    let merkle_proof", "C12")
+m("C12-binary-check-weakened", PROTO, "    if identity_path_index.iter().any(|direction| *direction > 1) {", "    if identity_path_index.iter().any(|direction| *direction > 2) {", "C12")
+
 
 def main():
     os.makedirs(OUT, exist_ok=True)
